@@ -48,8 +48,8 @@ def case_size(case):
 
 # ------------------------------------------------------------------------------------------ generation
 def gen_params(rng, model):
-    nb = 2 if model in ("AlternatingCrossover", "CambridgeSampler") else 1 if rng.random() < 0.35 else 2
-    if model == "slate_BradleyTerry" and nb == 1:
+    nb = 2 if model in ("AlternatingCrossover", "CambridgeSampler") else wchoice(rng, [(1, 3), (2, 5), (3, 2.5)])
+    if model == "slate_BradleyTerry" and nb != 2:
         nb = 2
     blocs = GP.BLOC_NAMES[:nb]
     sizes = [rng.randint(1, 3) for _ in blocs]
@@ -57,17 +57,30 @@ def gen_params(rng, model):
         sizes[sizes.index(max(sizes))] -= 1
     if model in ("slate_PlackettLuce", "slate_BradleyTerry", "AlternatingCrossover", "CambridgeSampler") and sum(sizes) < 3:
         sizes[0] += 1
+    if nb == 3 and model == "slate_PlackettLuce" and sum(sizes) < 5:
+        # a slate can only be "used up while two others are still open" if the slates have room
+        sizes = [2, 2, 1]
+        rng.shuffle(sizes)
     slates = {b: ["%s%d" % (b.lower(), i + 1) for i in range(s)] for b, s in zip(blocs, sizes)}
     p0 = rng.choice([0.3, 0.4, 0.5, 0.6, 0.7])
-    props = {blocs[0]: 1.0} if nb == 1 else {blocs[0]: p0, blocs[1]: round(1 - p0, 10)}
+    if nb == 1:
+        props = {blocs[0]: 1.0}
+    elif nb == 2:
+        props = {blocs[0]: p0, blocs[1]: round(1 - p0, 10)}
+    else:
+        props = dict(zip(blocs, rng.choice([[0.5, 0.3, 0.2], [0.4, 0.4, 0.2], [0.2, 0.3, 0.5]])))
     cohesion = {}
     for b in blocs:
         if nb == 1:
             cohesion[b] = {b: 1.0}
-        else:
+        elif nb == 2:
             c = rng.choice([0.2, 0.3, 0.4, 0.6, 0.7, 0.8, 0.5])
             o = [x for x in blocs if x != b][0]
             cohesion[b] = {b: c, o: round(1 - c, 10)}
+        else:
+            row = list(rng.choice([[0.6, 0.3, 0.1], [0.5, 0.25, 0.25], [0.2, 0.5, 0.3], [0.7, 0.3, 0.0]]))
+            rng.shuffle(row)
+            cohesion[b] = dict(zip(blocs, row))
     intervals = {}
     for b in blocs:
         intervals[b] = {}
